@@ -1009,6 +1009,12 @@ func (env *SpecEnv) call(x *CExpr) (SVal, error) {
 		n.heap = env.oldHeap
 		n.inOld = false
 		return (&n).tr(x.Args[0])
+	case "zero": // zero(T): the zero value of type T
+		t, err := e.evalType(x.Args[0].String(), env.pkg)
+		if err != nil {
+			return SVal{}, err
+		}
+		return SVal{T: W.zero(t), Typ: t, Sort: W.sortOf(t)}, nil
 	case "fieldaddr": // fieldaddr(p, f): the address &p.f of a struct-valued field f embedded by value in *p
 		a, err := argv(0)
 		if err != nil {
